@@ -989,6 +989,11 @@ func (g *Gen) hostile() Op {
 		return hostileU64[g.rng.Intn(len(hostileU64))]
 	}
 	h := g.hostileHandle()
+	if g.rng.Intn(12) == 0 {
+		// the MOUNT program: paths of every shape
+		paths := []string{"", "/", "x", "//", "/a/b", strings.Repeat("/", 300), strings.Repeat("p", 1100), "\x00", "/\x00"}
+		return Op{Proc: "mount", Mode: uint32(g.rng.Intn(6)), Name: paths[g.rng.Intn(len(paths))]}
+	}
 	switch g.rng.Intn(16) {
 	case 0:
 		return Op{Proc: "getattr", H: h}
